@@ -135,6 +135,9 @@ def run(ctx):
                     r.violate(key, f"{em} with tag_start still marked: {e.describe()}", shared.state_loc(e.state))
 
     r, nseq = rule_seq_mark(ctx, aut)
+    from ..mirlib import load as _load0
+    from . import shared_mir as _sm0
+    _sm0.clause_seq_mark_writes(r, _load0())
     sm_ms = impl_methods(idx, "TagScanner", "StateMachine")
     writers = sorted(n for n, f in sm_ms.items() for fld, e, _ in field_effects(f) if fld == "ch_sequence_matching_start")
     writers += sorted(n for n, f in ms.items() for fld, e, _ in field_effects(f) if fld == "ch_sequence_matching_start")
